@@ -125,6 +125,55 @@ CHECKS = {
         technique="Lean 4 proof over a rational model of the window functions + skeleton lift + differential correspondence",
         design="§4 C04",
     ),
+    "C01": dict(
+        text=("Proof (Lean 4), exact rational arithmetic, per window: cm_future = cm_hist gives mean out = mean obs for LinearScaling (both types), DeltaChange returns obs; parametric QuantileMapping / ECDFM / ISIMIP-additive "
+              "over any location-scale family map H affinely onto the observed location and scale (fit out = fit obs: mean AND calibrated spread); QDM absolute with a symmetric family has mean out = loc_obs; "
+              "non-parametric QuantileMapping with equal sizes returns exactly the observed multiset (a permutation of obs in the rank order of H); CDFt is a clamped rank transfer (a permutation of obs under the range guard); "
+              "repaired SDM absolute returns a permutation of obs (the pre-repair formula is refuted on a 4-point witness). Tier B: layer-N correspondence with a third of the cases on F = H; oracle on the eight real debiasers."),
+        note=("PARTIAL: the quantitative clause 'at most a small fraction of the original bias' for unequal sizes / seasonal windows is NOT proved; it is decided only by the search on the real code (limit max(2*range/n, 0.25*|bias|), "
+              "judged when every window sees >= 200 values). Trusted: scipy.stats.norm / gamma assumed to satisfy the location-scale laws; real window index sets (C07)."),
+        technique="Lean 4 proof over a rational model of the window functions + differential correspondence; one clause search-only",
+        design="§4 C01",
+    ),
+    "C03": dict(
+        text=("Proof (Lean 4): cm_hist = obs gives out = cm_future for LinearScaling (both types), ECDFM and QDM absolute (even when clipped: the two ppf terms cancel), QDM relative (guard ppf_H(tau) != 0; censoring only for x >= threshold), "
+              "parametric QuantileMapping under the decidable NoClip guard (the clipped branch is characterised: the value is pulled to ppf(1-t) / ppf(t)), CDFt for the default linear_interpolation / linear pair on tie-free data via the "
+              "interpolation-inverse lemmas (a witness shows the identity fails for step / inverted_cdf at unequal sizes); DeltaChange(F = H) = obs. Lifted to seasonal windows, year windows and both with the skeleton fixed-point lemmas. "
+              "Tier B: layer-N correspondence on the domain H := obs; oracle: apply_location(obs, obs.copy(), F) vs F in all window modes."),
+        note="Trusted: scipy families assumed to satisfy the location-scale laws; the oracle's clip mask for parametric QM is computed with the real distribution on the real window index sets.",
+        technique="Lean 4 proof over a rational model of the window functions + skeleton lift + differential correspondence",
+        design="§4 C03",
+    ),
+    "C09": dict(
+        text=("Proof (Lean 4): x_i < x_j implies out_i <= out_j within a window for LinearScaling (additive strictly; multiplicative under the stated non-negative-ratio guard, with a witness that the code reverses order otherwise), "
+              "parametric QuantileMapping with all three detrendings over monotone families, non-parametric QuantileMapping with constant extrapolation and CDFt for ALL ecdf x iecdf pairs (generic in the pair; histogram bins as an oracle), "
+              "CDFt SSR for every draw list in the documented range, ISIMIP step 4 for every draw and step 6 for bounded and unbounded variables through every fallback branch, and the whole ISIMIP window with detrending off; "
+              "censored-gamma and hurdle QuantileMapping on local transcriptions. Tier B: layer-N correspondences; oracle: pairwise order on the real window functions incl. all 3 x 9 CDFt pairs and real scipy families."),
+        note=("Guards stated as hypotheses: event_likelihood_adjustment = False (with it step 6 is genuinely not rank preserving - inherent to the method, outside the default settings, not exercised), pairwise-distinct step-4 draws for the whole-window theorem, "
+              "tie-free statements only (np.argsort is not stable). Known finding F16 (censored-gamma QM re-draws distinct sub-threshold values independently) is printed as KNOWN-FINDING. Precipitation-model transcriptions are tied by structural probes."),
+        technique="Lean 4 proof over a rational model of the transfer functions + differential correspondence",
+        design="§4 C09",
+    ),
+    "C12": dict(
+        text=("Proof (Lean 4) over an explicit STORE MODEL: buffers carry a provenance (own | caller k); every anchored path of every debiaser x settings branch is a straight-line program over named buffers; a provenance checker, proved sound against a heap semantics, "
+              "accepts all of them (inputs_preserved, result_is_fresh) and rejects the stated mutants. The list of in-place write sites, self-assignments, global state and window-function call arguments is REGENERATED from the current source on every run "
+              "and proved equal to the modelled tables, so a new write site breaks the tie. Instance model: derive idempotent, settings fixed by apply, output a function of (settings, args, draws), hence repeatable. Tier B: read-only inputs in seven memory layouts and three dtypes, "
+              "byte comparison, np.shares_memory at the entry of each modelled function against the provenance table, instance snapshots, repeated / interleaved calls under re-seeding."),
+        note=("PARTIAL by nature: numpy's real view/copy behaviour and the absence of hidden writes inside numpy / scipy routines are TRUSTED assumptions validated by the probes, not proved; data-dependent branches are merged per program; parallel=True is C05's. "
+              "QDM's cdf_threshold None-fill is sticky across a later change of running_window_length (exempted by C15's quantifier; recorded in the evidence)."),
+        technique="Lean 4 proof over an alias/store model with write sites regenerated from source + aliasing probes",
+        design="§4 C12",
+    ),
+    "C02": dict(
+        text=("Proof (Lean 4), exact rational arithmetic: adding c to cm_future adds exactly c to every output value for LinearScaling / DeltaChange additive, additively detrended QuantileMapping (any inner mapping), SDM absolute, ECDFM and QDM absolute "
+              "(location-scale laws), CDFt for all 2 x 9 ecdf/iecdf pairs via generic ShiftLaws (histogram ecdf under the oracle law 'bins shift with the data'), ISIMIP additive steps 3-7 through every step-6 branch with the regression slope modelled exactly; "
+              "scaling by k > 0 for the multiplicative LinearScaling / DeltaChange / multiplicatively detrended QuantileMapping; mean-change identities for LS / DC; ISIMIP step 7 restores exactly the linear trend of annual means that step 3 removed, and an added linear trend "
+              "passes through. Lifted to seasonal windows, month mode, year windows and the default year-inside-season configuration through the write-back skeleton. Tier A for LS / DC kernels, tier B layer-N correspondences, oracle on the real code incl. inferred vs explicit dates."),
+        note=("Trusted: the p<0.05 and KS decisions are oracles passed identically to both runs; the histogram bin law; scipy.stats.norm assumed to satisfy the location-scale laws. SSR and QDM censoring are precipitation paths outside this property. "
+              "Observation recorded in the evidence: ECDFM's default beta distribution is fitted by numerical MLE, the shift passes only to ~1e-5 there (exact with norm)."),
+        technique="Lean 4 proof over a rational model of the window functions + skeleton lift + differential correspondence",
+        design="§4 C02",
+    ),
 }
 
 
